@@ -117,8 +117,14 @@ func H_C04_ops() {
 		}
 	case 1: // metadata patch
 		w := vNewRecorder()
+		// the body may be a full (possibly stale) resource: it can carry any metageneration
+		bodyMeta := vChoice("patch.body-metageneration", 0, 1) == 1
+		bm := vNondetInt64("patch.body.metageneration")
 		r := &http.Request{Body: &vBody{decode: func(v interface{}) error {
 			(*v.(**storage.Object)).ContentType = "text/patched"
+			if bodyMeta {
+				(*v.(**storage.Object)).Metageneration = bm
+			}
 			return nil
 		}}}
 		g.handleGcsUpdateMetadataRequest(vCtx(), dontNeedUrls, w, r, "b", "o", conds)
